@@ -76,7 +76,6 @@ theorem filter_sins_lt (U c : List Int) (u : Int) (hU : u ∈ U) (hc : u ∉ c) 
     apply List.filter_congr
     intro x _
     simp
-    grind
   rw [h1]
   apply (List.length_filter_lt_length_iff_exists).2
   exact ⟨u, by simp [hU, hc], by simp⟩
@@ -275,22 +274,23 @@ theorem NFA.εClosure_sorted (n : NFA) (T c : List Int) (h : n.εClosure T = .ok
 
 theorem NFA.mem_move (n : NFA) (T : List Int) (a x : Int) :
     x ∈ n.move T a ↔ ∃ s ∈ T, n.Δ s a x := by
-  suffices h : ∀ acc, x ∈ T.foldl (fun acc s => match n.next s a with | some nx => sunion acc nx | none => acc) acc
+  suffices h : ∀ acc, x ∈ T.foldl (n.moveStep a) acc
       ↔ x ∈ acc ∨ ∃ s ∈ T, n.Δ s a x by
-    simpa using h []
+    simpa [NFA.move] using h []
   induction T with
   | nil => simp
   | cons s T ih =>
     intro acc
     simp only [List.foldl_cons]
     rw [ih]
+    simp only [NFA.moveStep]
     cases hn : n.next s a with
     | none => simp [NFA.Δ, hn]
     | some nx =>
       simp [NFA.Δ, hn]; grind
 
 theorem NFA.move_sorted (n : NFA) (T : List Int) (a : Int) : SSorted (n.move T a) := by
-  suffices h : ∀ acc, SSorted acc → SSorted (T.foldl (fun acc s => match n.next s a with | some nx => sunion acc nx | none => acc) acc) by
+  suffices h : ∀ acc, SSorted acc → SSorted (T.foldl (n.moveStep a) acc) by
     exact h [] (by simp [SSorted])
   induction T with
   | nil => intro acc h; simpa
@@ -298,6 +298,7 @@ theorem NFA.move_sorted (n : NFA) (T : List Int) (a : Int) : SSorted (n.move T a
     intro acc h
     simp only [List.foldl_cons]
     apply ih
+    simp only [NFA.moveStep]
     cases n.next s a with
     | none => exact h
     | some nx => exact ssorted_saddAll h
